@@ -7,7 +7,7 @@ from common import hx
 ACK_MS = 1000
 
 
-def gen_schedule(r, nsteps, weights=None, kinds="GPZDWZGB", max_live=3, allow_close=True, allow_reset=False):
+def gen_schedule(r, nsteps, weights=None, kinds="GPZDWZGBEF", max_live=3, allow_close=True, allow_reset=False):
     """abstract schedule: list of (event, arg)"""
     w = dict(start=4, ack=4, rsp=3, tick=3, cancel=1, badack=1, close=0.25, lost=0.15, reset=0.0)
     if weights:
@@ -50,16 +50,13 @@ def run_schedule(r, sched, drain=True, max_live=3):
             canon = []
             for e in entries:
                 if e.startswith("W"):
-                    raw = bytes.fromhex(e[1:])
+                    hexpart, _, who = e[1:].partition("#")
+                    raw = bytes.fromhex(hexpart)
                     fl = raw[5]
                     if fl & 1:
                         canon.append("WACK")
                         continue
-                    body = raw[9:]
-                    if fl & 0x40:
-                        rid = body[4]          # TSN right after the 4-byte HL header
-                    else:
-                        rid = body[-1]         # payloads are filled with the TSN
+                    rid = int(who)             # id of the request task that performed the write
                     k = fragcount.get(rid, 0)
                     fragcount[rid] = k + 1
                     n = tr.reqs[rid]["nfrags"] if rid in tr.reqs else 0
@@ -216,6 +213,16 @@ def monitor_c11(ctx, tr):
         if body != tr.reqs[rid]["body"]:
             ctx.counterexample("ncp-receives-other-bytes", dict(inp, request=rid), hx(tr.reqs[rid]["body"])[:60], hx(body)[:60],
                                "a protocol-following NCP does not receive exactly the request's header and parameters")
+            return
+    # each fragment only after the previous one's acknowledgement wait ended: never two data frames in one step
+    # unless the first one's wait was ended by this step's event (then the earlier write is from an earlier step)
+    per_step = {}
+    for (step, rid, k, raw) in tr.writes:
+        per_step.setdefault(step, []).append((rid, k))
+    for step, ws in per_step.items():
+        if len(ws) > 1:
+            ctx.counterexample("fragment-without-ack-wait", dict(inp, step=step), "one data frame per step", ws,
+                               "a data frame was written without waiting for the previous frame's acknowledgement or expiry")
             return
     # a response is only awaited (the request only returns) after its last fragment went out
     last_written = {rid: step for (step, rid, k, raw) in tr.writes if raw[5] & 0x80}
